@@ -127,12 +127,56 @@ func runSort(s *toposort.Sorter[int, int], g graph, roots []int, stopAfter int) 
 }
 
 func checkSort(r *vlib.Run, s *toposort.Sorter[int, int], g graph, roots []int, id string) {
-	cyc := g.cyclicFrom(roots)
 	out, over, pv, stack := runSort(s, g, roots, -1)
+	judgeSort(r, g, roots, id, "", out, over, pv, stack)
+}
+
+// consume ranges over a sequence obtained earlier (step budget as in runSort).
+func consume(seq iter.Seq[int], budget int) (out []int, overBudget bool, pv any, stack string) {
+	pv, stack = vlib.Try(func() {
+		for v := range seq {
+			out = append(out, v)
+			if len(out) > budget {
+				panic(abortSort{})
+			}
+		}
+	})
+	if _, ok := pv.(abortSort); ok {
+		return out, true, nil, ""
+	}
+	return out, false, pv, stack
+}
+
+// checkSortSequences: the value Sort returns is a lazy sequence. Two sequences taken from one
+// Sorter before either is consumed, and a sequence that is ranged over a second time, are sorts
+// like any other (dag inputs only: a cyclic one panics on the unchanged tree, known finding).
+func checkSortSequences(r *vlib.Run, s *toposort.Sorter[int, int], g graph, rootsA, rootsB []int, id string) {
+	budget := (g.n+1)*(g.n+1)*4 + 16
+	dag := func(v int) iter.Seq[int] {
+		return func(yield func(int) bool) {
+			for _, w := range g.adj[v] {
+				if !yield(w) {
+					return
+				}
+			}
+		}
+	}
+	seqA := s.Sort(rootsA, dag)
+	seqB := s.Sort(rootsB, dag)
+	out, over, pv, stack := consume(seqA, budget)
+	judgeSort(r, g, rootsA, id, "first of two sequences taken before either is consumed: ", out, over, pv, stack)
+	out, over, pv, stack = consume(seqB, budget)
+	judgeSort(r, g, rootsB, id, "second of two sequences taken before either is consumed: ", out, over, pv, stack)
+	out, over, pv, stack = consume(seqA, budget)
+	judgeSort(r, g, rootsA, id, "a sequence ranged over a second time: ", out, over, pv, stack)
+}
+
+func judgeSort(r *vlib.Run, g graph, roots []int, id, usage string, out []int, over bool, pv any, stack string) {
+	cyc := g.cyclicFrom(roots)
 	w := map[string]any{"graph": g.String(), "roots": roots, "cyclic": cyc, "output": out}
-	cls := "dag"
+	cls := usage + "dag"
 	if cyc {
-		cls = "cyclic"
+		cls = usage + "cyclic"
 	}
 	if over {
 		r.Violation("toposort.nontermination", cls+" input exceeded the step budget", id, w)
@@ -238,6 +282,15 @@ func TestC41(t *testing.T) {
 					}
 				}
 			}
+			// several sequences from one Sorter; a sequence consumed twice
+			if len(rl) > 2 && !g.cyclicFrom(rl[len(rl)-1]) && !g.cyclicFrom(rl[len(rl)/2]) {
+				id := fmt.Sprintf("topo/n%d-s%v-%x/sequences", sp.n, sp.self, bits)
+				if r.Want(id) {
+					checkSortSequences(r, s, g, rl[len(rl)-1], rl[len(rl)/2], id)
+					cnt += 3
+					nt += 3
+				}
+			}
 			r.EvalN(cnt, nt)
 		})
 	}
@@ -278,6 +331,10 @@ func TestC41(t *testing.T) {
 			r.Sample("toposort-random", map[string]any{"graph": g.String(), "roots": roots})
 		}
 		checkSort(r, s, g, roots, id)
+		if dagOnly && i%4 == 0 {
+			rb := []int{rng.Intn(n), rng.Intn(n)}
+			checkSortSequences(r, s, g, roots, rb, id+"/sequences")
+		}
 	})
 
 	// ---------- trie: small key sets ----------
